@@ -607,9 +607,9 @@ func judgeRace(res *core.Result, prop string, p *RacePlan, targets []string, rl 
 				failures++
 			}
 		}
-		// an address that cannot be resolved fails the moment its turn comes:
-		// each one listed before this target's address is such a failure
-		failures += unresolvableBefore(p, cur.idx)
+		// (an address that cannot be resolved takes its turn like any other - it
+		// is handed out after ConcurrencyDelay or an earlier failure and fails at
+		// once - so it never makes room for a start earlier than that)
 		justified := early <= failures
 		if justified {
 			res.Probe("failure_wakes_feeder")
